@@ -40,6 +40,7 @@ type Ctx struct {
 	pure       map[*ssa.Function]int8
 	sites      map[*ssa.Function][]ssa.CallInstruction
 	bindParam  map[*ssa.Parameter]ssa.Value
+	curRoot    *ssa.Function // the function a guard-obligation context is analysing
 	stats      struct {
 		packages, functions, blocks, instrs int
 	}
@@ -675,6 +676,20 @@ func (c *Ctx) lookThrough(v ssa.Value) (ssa.Value, bool) {
 			return b, true // bound by the call we looked through last
 		}
 		sites := c.callSites(fn)
+		if len(sites) > 1 && c.curRoot != nil {
+			// a helper shared by several functions: the call made by the function under analysis
+			inRoot := map[*ssa.Function]bool{}
+			for _, g := range c.Group(c.curRoot) {
+				inRoot[g] = true
+			}
+			var mine []ssa.CallInstruction
+			for _, s := range sites {
+				if inRoot[s.Parent()] {
+					mine = append(mine, s)
+				}
+			}
+			sites = mine
+		}
 		if len(sites) != 1 {
 			return v, false
 		}
